@@ -172,6 +172,7 @@ CoreMenu == {PlainKV, Sel(<<P(K, "")>>, NoE, TRUE, NoLimit, "none"), Star(VPos, 
              Agg(<<KeyK, CountV>>, <<K>>, NoE, NoH, FALSE, NoLimit, "none"),
              Agg(<<CountStar, MaxK>>, <<>>, VPos, NoH, FALSE, NoLimit, "none"),
              Agg(<<KeyK, MinOfV>>, <<K>>, NoE, HAgg(CountStar, ">", IntV(1)), TRUE, NoLimit, "none")}
+FollowMenu == CoreMenu \cup {[PlainKV EXCEPT !.limit = n] : n \in 0..3} \cup {[Sel(<<P(K, "")>>, NoE, TRUE, NoLimit, "none") EXCEPT !.limit = n] : n \in 0..2}
 CoreLimitMenu == CoreMenu \cup {[PlainKV EXCEPT !.limit = 2], [Sel(<<P(K, "")>>, NoE, TRUE, NoLimit, "none") EXCEPT !.limit = 1]}
 
 \* C05
